@@ -58,8 +58,11 @@ def content_items(rng):
             items.append(('text', ' '))
         elif r < 0.7:
             items.append(('counter', rng.choice(['page', 'page', 'pages', 'pages', 'c', 'zz'])))
-        else:
+        elif r < 0.9:
             items.append(('string', rng.choice(['h', 'h', 'k']),
+                          rng.choice(['first', 'first', 'start', 'last', 'first-except', None])))
+        else:
+            items.append(('element', rng.choice(['h', 'k']),
                           rng.choice(['first', 'first', 'start', 'last', 'first-except', None])))
     return items
 
@@ -130,7 +133,7 @@ def page_decls(rng, base=False):
     return [(n, v, rng.random() < 0.08) for n, v in decls]
 
 
-def selector_text(rng, names):
+def selector_text(rng, names, with_groups=True):
     parts = []
     if rng.random() < 0.35:
         parts.append(rng.choice(names))
@@ -138,8 +141,10 @@ def selector_text(rng, names):
         r = rng.random()
         if r < 0.65:
             parts.append(':' + rng.choice(['left', 'right', 'first', 'blank', 'first', 'left', 'right']))
-        else:
+        elif r < 0.85 or not with_groups:
             parts.append(f":nth({rng.choice(['2n+1', 'odd', 'even', '3', 'n+2', '-n+3', '3n', '2n', '4n+1', '1'])})")
+        else:
+            parts.append(f":nth({rng.choice(['1', '2', 'n+2', '-n+2', '2n', 'odd'])} of {rng.choice(names)})")
     if rng.random() < 0.04:
         parts.append(rng.choice([':foo', ' x', ':', '::left', ':nth(foo)']))      # rule ignored
     text = ''.join(parts)
@@ -149,6 +154,11 @@ def selector_text(rng, names):
 
 
 def random_doc(rng, max_sections=14):
+    # two families: documents with page groups (wrappers, `:nth(… of name)`), whose pages are laid out
+    # in a single pass, and documents with page-based counters in the content / in string-set values,
+    # whose pages are re-made in later passes (there `PageType.groups` is not compared: known finding
+    # page-groups-lost-on-remake)
+    with_groups = rng.random() < 0.5
     names = ['', 'a', 'b']
     n = rng.randrange(1, max_sections + 1) if rng.random() < 0.9 else rng.randrange(20, 36)
     sections = []
@@ -165,7 +175,7 @@ def random_doc(rng, max_sections=14):
             names_here = rng.sample(['h', 'k'], rng.choice([1, 1, 2])) if rng.random() < 0.7 else ['h']
             def value():
                 # a literal, or a value mixing in page-based counters (computed again after pagination)
-                if rng.random() < 0.7:
+                if with_groups or rng.random() < 0.6:
                     return rng.choice(WORDS)
                 pieces = [('text', rng.choice(['pg', 'a', 'sec']))]
                 for _ in range(rng.choice([1, 1, 2])):
@@ -175,13 +185,32 @@ def random_doc(rng, max_sections=14):
                 return pieces
             return [(nm, value()) for nm in names_here]
         sections.append({'brk': brk, 'name': cur, 'sets': sets(), 'inner': sets(), 'late': sets(),
-                         'pc': rng.random() < 0.15})
+                         'pc': not with_groups and rng.random() < 0.2,
+                         'running': ([(rng.choice(['h', 'k']), rng.choice(WORDS)) for _ in range(rng.choice([1, 1, 2]))]
+                                     if rng.random() < 0.3 else [])})
+    # wrappers: runs of consecutive sections inside one `<div style="page: name">` (page groups)
+    k, wid = 0, 0
+    while k < len(sections):
+        if with_groups and rng.random() < 0.35:
+            run_len = rng.choice([1, 2, 2, 3, 4])
+            wname = rng.choice(['a', 'b'])
+            for sec in sections[k:k + run_len]:
+                sec['wrap'] = (wid, wname)
+            wid += 1
+            k += run_len
+        else:
+            k += 1
+    # running elements only in sections whose used page name is '' (known finding
+    # element-from-named-page-crashes-margin-box: a copy with a page name makes the margin-box layout assert)
+    for sec in sections:
+        if sec['name'] or sec.get('wrap'):
+            sec['running'] = []
     rules = [{'sel': '', 'decls': page_decls(rng, base=True),
               'margin': [(kw, margin_decls(rng)) for kw in rng.sample(ALL_KW, rng.choice([0, 1, 2, 3, 4, 6, 16]))]}]
     for _ in range(rng.choice([0, 1, 2, 3, 4, 6])):
-        rules.append({'sel': selector_text(rng, ['a', 'b']), 'decls': page_decls(rng) if rng.random() < 0.8 else [],
+        rules.append({'sel': selector_text(rng, ['a', 'b'], with_groups), 'decls': page_decls(rng) if rng.random() < 0.8 else [],
                       'margin': [(kw, margin_decls(rng)) for kw in rng.sample(ALL_KW, rng.choice([0, 0, 1, 2, 3]))]})
-    return {'ltr': rng.random() < 0.8, 'root_break': rng.choice(['auto'] * 6 + ['left', 'right', 'recto', 'verso', 'page']),
+    return {'groups': with_groups, 'ltr': rng.random() < 0.8, 'root_break': rng.choice(['auto'] * 6 + ['left', 'right', 'recto', 'verso', 'page']),
             'sections': sections, 'rules': rules}
 
 
@@ -224,7 +253,8 @@ def css_value(name, v):
             elif item[0] == 'counter':
                 out.append(f'counter({item[1]})')
             else:
-                out.append(f'string({item[1]})' if item[2] is None else f'string({item[1]}, {item[2]})')
+                fn = 'element' if item[0] == 'element' else 'string'
+                out.append(f'{fn}({item[1]})' if item[2] is None else f'{fn}({item[1]}, {item[2]})')
         return ' '.join(out)
     return css_dim(v)
 
@@ -262,9 +292,16 @@ def doc_html(doc):
         if sec['name']:
             style += f"page: {sec['name']};"
         style += ss(sec['sets'])
-        body.append(f'<div style=\'{style}\'><div style=\'{ss(sec["inner"])}\'>s{i}</div>'
+        wrap, prev = sec.get('wrap'), doc['sections'][i - 1].get('wrap') if i else None
+        nxt = doc['sections'][i + 1].get('wrap') if i + 1 < len(doc['sections']) else None
+        if wrap and (not prev or prev[0] != wrap[0]):
+            body.append(f'<div style="page: {wrap[1]}">')
+        running = ''.join(f'<div style="position: running({nm})">{txt}</div>' for nm, txt in sec.get('running', []))
+        body.append(f'<div style=\'{style}\'><div style=\'{ss(sec["inner"])}\'>s{i}</div>{running}'
                     f'<div style=\'{ss(sec["late"])}\'>t{i}</div>'
                     f'{"<div class=pc></div>" if sec.get("pc") else ""}</div>')
+        if wrap and (not nxt or nxt[0] != wrap[0]):
+            body.append('</div>')
     return f'<style>{doc_css(doc)}</style><body>{"".join(body)}'
 
 
@@ -287,7 +324,7 @@ def wire_value(v):
             elif item[0] == 'counter':
                 items.append(['counter', g.s(item[1])])
             else:
-                items.append(['string', g.s(item[1]), item[2] or 'first'])
+                items.append([item[0], g.s(item[1]), item[2] or 'first'])
         return ['content', items]
     if isinstance(v, tuple) and v[0] == 'pct':
         return ['pct', v[1]]
@@ -310,7 +347,9 @@ def prelude_tokens(sel):
 def doc_line(doc):
     def wsets(sets):
         return [[g.s(n), [[k, g.s(t)] for k, t in set_pieces(v)]] for n, v in sets]
-    secs = [[s['brk'], g.s(s['name']), wsets(s['sets']), wsets(s['inner']), wsets(s['late']), bool(s.get('pc'))]
+    secs = [[s['brk'], g.s(s['name']), wsets(s['sets']), wsets(s['inner']), wsets(s['late']), bool(s.get('pc')),
+             [s['wrap'][0], g.s(s['wrap'][1])] if s.get('wrap') else 'none',
+             [[g.s(n), g.s(v)] for n, v in s.get('running', [])]]
             for s in doc['sections']]
     rules = [UA_RULE]
     for rule in doc['rules']:
@@ -322,7 +361,7 @@ def doc_line(doc):
         for kw, ds in rule['margin']:
             if ds:
                 rules.append(['author', toks, g.s(kw), wire_decls(ds)])
-    return sx.line('doc', doc['ltr'], doc['root_break'], F(ROOT_FS), secs, rules)
+    return sx.line('doc', doc['ltr'], doc['root_break'], F(ROOT_FS), bool(doc.get('groups', True)), secs, rules)
 
 
 # ---- observation ---------------------------------------------------------------------------------------
@@ -371,6 +410,7 @@ def observe(document, context):
         texts = [b.text for b in pb.children[0].descendants() if isinstance(b, boxes.TextBox)]
         pages.append({
             'head': [pt.side, bool(pt.blank), pt.name, pt.index],
+            'groups': [[n, i] for n, i in pt.groups],
             'box': [page.width, page.height, pb.width, pb.height, pb.margin_top, pb.margin_right, pb.margin_bottom,
                     pb.margin_left],
             'pad': [pb.padding_top + pb.border_top_width, pb.padding_right + pb.border_right_width,
@@ -400,7 +440,8 @@ def render_observed(pages, model_pages, snap):
             matoms = mmargin[j][1:9] if j < len(mmargin) and len(mmargin[j]) == 10 else None
             margin.append(f"({g.s(mb['kw'])} {nums(mb['nums'], matoms)} {g.s(mb['text'])})")
         out.append(
-            f"(page ({head[0]} {str(head[1]).lower()} {g.s(head[2])} {head[3]}) (box {nums(p['box'], mbox)}) "
+            f"(page ({head[0]} {str(head[1]).lower()} {g.s(head[2])} {head[3]} "
+            f"({' '.join(f'({g.s(n)} {i})' for n, i in p.get('groups', []))})) (box {nums(p['box'], mbox)}) "
             f"(bleed {nums(p['bleed'], mbleed)}) (counters {g.show_state(*p['counters'])}) "
             f"(margin {' '.join(margin)}) "
             f"(body {' '.join(g.s(t.strip()) for t in p['texts'] if t.strip()[:1] == 'p')}))")
@@ -440,6 +481,9 @@ def correspondence(prop, run, collect=False):
         try:
             document, context = render(doc)
             pages = observe(document, context)
+            if not doc.get('groups', True):
+                for pg in pages:
+                    pg['groups'] = []
             boxes = pdf_boxes(document, float(zoom)) if zoom is not None else None
         except Exception as exc:  # an exception of the implementation is an outcome
             pages, boxes, err = None, None, f'err:{type(exc).__name__}'
@@ -463,7 +507,16 @@ def correspondence(prop, run, collect=False):
         nboxes = sum(len(p['margin']) for p in pages)
         sec.add(line, out, meta=meta, nontrivial=len(pages) > 1 or nboxes > 0,
                 tags=[f'pages{min(len(pages), 10) if len(pages) <= 10 else "10+"}', f'blank{min(nblank, 3)}',
-                      'boxes0' if nboxes == 0 else 'boxes+', 'ltr' if doc['ltr'] else 'rtl'])
+                      'boxes0' if nboxes == 0 else 'boxes+', 'ltr' if doc['ltr'] else 'rtl',
+                      'family-groups' if doc.get('groups', True) else 'family-counters'] +
+                     (['group-index>0'] if any(i > 0 for p in pages for _, i in p.get('groups', [])) else []) +
+                     (['nth-of-selector'] if any(' of ' in r['sel'] for r in doc['rules']) else []) +
+                     (['running-elements'] if any(sec.get('running') for sec in doc['sections']) else []) +
+                     (['element()-content'] if any(it[0] == 'element' for r in doc['rules'] for _, ds in r['margin']
+                                                   for nm, v, _ in ds if nm == 'content' and v[1] for it in v[1]) else []) +
+                     (['string-set-with-counters'] if any(not isinstance(v, str) for sec in doc['sections']
+                                                          for _, v in sec['sets'] + sec['inner'] + sec['late']) else []) +
+                     (['body-page-counters'] if any(sec.get('pc') for sec in doc['sections']) else []))
         if boxes is not None:
             for i, (p, rects) in enumerate(zip(pages, boxes)):
                 w, h = p['box'][0], p['box'][1]
@@ -496,6 +549,15 @@ def jsonable(x):
         return [jsonable(v) for v in x]
     if isinstance(x, set):
         return sorted(x)
+    return x
+
+
+def int_keys(x):
+    """resume_at dicts read back from JSON: keys are page-child indexes."""
+    if isinstance(x, dict):
+        return {int(k): int_keys(v) for k, v in x.items()}
+    if isinstance(x, list):
+        return [int_keys(v) for v in x]
     return x
 
 
@@ -539,11 +601,38 @@ def judge_remake(args, impl):
     return None
 
 
+def spec_page_counters(styles):
+    """css-lists on the page context, stated directly: per page, counter-reset creates / resets, then
+    counter-set assigns, then counter-increment adds (a counter that does not exist starts at 0); `page` is
+    incremented by 1 unless the page's style touches it; `pages` cannot be touched."""
+    values, out = {}, []
+    for cset, creset, cincr in styles:
+        lists = [() if x == AUTO else [tuple(p) for p in x] for x in (creset, cset, cincr)]
+        touched = any(nm == 'page' for lst in lists for nm, _ in lst)
+        for nm, v in lists[0]:
+            if nm != 'pages':
+                values[nm] = v
+        for nm, v in lists[1]:
+            if nm != 'pages':
+                values[nm] = v
+        incr = ([] if touched else [('page', 1)]) + [p for p in lists[2]]
+        for nm, v in incr:
+            if nm != 'pages':
+                values[nm] = values.get(nm, 0) + v
+        out.append(dict(values))
+    return out
+
+
 def judge_pagestates(styles, impl):
     if impl.startswith('err:'):
         return f'page counters raised {impl}'
     states = sx.loads_line(impl)
     n = len(styles)
+    for i, (st, want) in enumerate(zip(states, spec_page_counters(styles))):
+        have = {g.uns(name): [int(v) for v in stack] for name, stack in st[0]}
+        for nm, v in want.items():
+            if have.get(nm, [None])[-1] != v:
+                return f'counter({nm}) is {have.get(nm)} on page {i + 1}, css-lists gives {v} for the @page styles {styles[:i + 1]}'
     touched = any(name in ('page',) for st in styles for lst in st if lst != AUTO for name, _ in lst)
     for i, st in enumerate(states):
         values = {g.uns(name): [int(v) for v in stack] for name, stack in st[0]}
@@ -668,6 +757,56 @@ def judge_cascade(args, impl):
     return None
 
 
+def chain_path(ra):
+    """The key path of a single-path resume_at ({k: {…: None}}), else None."""
+    path = []
+    while ra is not None:
+        if not isinstance(ra, dict) or len(ra) != 1:
+            return None
+        (k, ra), = ra.items()
+        path.append(int(k))
+    return path or None
+
+
+def resume_has_path(resume, path):
+    """css-gcpm page groups: the page resumes inside the element at `path` (every key present on the way)."""
+    for i, k in enumerate(path):
+        if not isinstance(resume, dict):
+            return False
+        keys = {int(x): v for x, v in resume.items()}
+        if k not in keys:
+            return False
+        resume = keys[k]
+    return True
+
+
+def judge_includes(args, impl):
+    resume, group = args
+    path = chain_path(group)
+    if path is None:
+        return None
+    if impl.startswith('err:'):
+        return f'_includes_resume_at raised {impl} on a single-path group {group}'
+    want = resume_has_path(resume, path)
+    if (impl == 'true') != want:
+        return f'page group at {path} and resume_at {resume}: included={impl}, expected {want}'
+    return None
+
+
+def judge_groups(args, impl):
+    groups, resume, brk, name, tree = args
+    paths = [chain_path(r) for _, _, r in groups]
+    if any(p is None for p in paths) or impl.startswith('err:'):
+        return None
+    have = sx.loads_line(impl)[0]
+    want = [(n, int(i) + 1) for (n, i, _), p in zip(groups, paths) if resume_has_path(resume, p)]
+    got = [(g.uns(e[0]), int(e[1])) for e in have]
+    if got[:len(want)] != want or len(got) > len(want) + 1:
+        return (f'page groups {[(n, i) for n, i, _ in groups]} on a page resuming at {resume}: kept {got}, expected '
+                f'{want} (a group continues, index + 1, exactly while the page resumes inside its element)')
+    return None
+
+
 def strip_of(kw):
     """(axis that is fixed, is start side) for a margin box keyword."""
     if kw in CORNER_KW:
@@ -719,9 +858,31 @@ def doc_oracle(doc, pages):
             return f"section {k} (break-before {sec['brk']}) starts on a {pages[where[k]]['head'][0]} page"
         if k and want is None and where[k] != where[k - 1] and pages[where[k] - 1]['head'][1]:
             return f'blank page {where[k] - 1} although section {k} requests no side'
-        if where[k] != where.get(k - 1, -1) and not pages[where[k]]['head'][1] and sec['name'] and \
-                pages[where[k]]['head'][2] != sec['name']:
-            return f"page {where[k]} starting with section {k} (page: {sec['name']}) is named {pages[where[k]]['head'][2]!r}"
+        eff = sec['name'] or (sec['wrap'][1] if sec.get('wrap') else '')
+        if where[k] != where.get(k - 1, -1) and not pages[where[k]]['head'][1] and eff and \
+                pages[where[k]]['head'][2] != eff:
+            return f"page {where[k]} starting with section {k} (page: {eff}) is named {pages[where[k]]['head'][2]!r}"
+    # page groups: consecutive pages that start inside the same wrapper element continue its group
+    if doc.get('groups', True):
+        starts = {}
+        for k in sorted(where):
+            starts.setdefault(where[k], k)
+        for i in range(1, n):
+            a, b = starts.get(i - 1), starts.get(i)
+            if a is None or b is None or pages[i]['head'][1]:
+                continue
+            wa, wb = doc['sections'][a].get('wrap'), doc['sections'][b].get('wrap')
+            plain = wa and all(not sec['name'] for sec in doc['sections'] if sec.get('wrap') and sec['wrap'][0] == wa[0])
+            first = min(k for k, sec in enumerate(doc['sections']) if sec.get('wrap') and wa and sec['wrap'][0] == wa[0]) if wa else 0
+            # (known finding page-group-not-started-on-first-page: not judged for the element the document starts in)
+            # … nor for an element that does not start on a new page (the group is then created at the child
+            # a later page resumes at, same finding)
+            if wa and wb and wa[0] == wb[0] and plain and first > 0 and where[first] != where[first - 1]:     # (a child with its own page name starts its own group)
+                ga = [idx for nm, idx in pages[i - 1].get('groups', []) if nm == wb[1]]
+                gb = [idx for nm, idx in pages[i].get('groups', []) if nm == wb[1]]
+                if not ga or not gb or gb[0] != ga[0] + 1:
+                    return (f'pages {i - 1} and {i} both start inside the same element with page: {wb[1]}, but their '
+                            f'page groups are {pages[i - 1].get("groups")} then {pages[i].get("groups")}')
     # counters
     counter_decl = any(nm.startswith('counter-') for r in doc['rules'] for nm, _, _ in r['decls'])
     for i, p in enumerate(pages):
@@ -823,9 +984,11 @@ def doc_oracle(doc, pages):
                  for bkw, ds in r['margin'] if bkw == kw for k, (nm, v, imp) in enumerate(ds) if nm == name]
         return max(cands)[3] if cands else None
 
-    def px_of(v, default):
+    def px_of(v, default, refer=None):
         if v is None:
             return default
+        if isinstance(v, tuple) and v[0] == 'pct' and refer is not None:
+            return refer * float(F(v[1])) / 100      # percentages refer to the box's margin / corner area
         if v == AUTO or isinstance(v, tuple):
             return None
         return float(F(v))
@@ -843,9 +1006,18 @@ def doc_oracle(doc, pages):
             if axis in ('corner', 'v'):       # the height is the fixed dimension
                 start = ('top' in kw) if axis == 'corner' else prefix == 'top'
                 checks.append(('height', 'margin-top', 'margin-bottom', bhei, bmt, bmb, start))
+            # containing block of the box: its corner, or its margin strip
+            pw, ph, pcw, pch, pmt, pmr, pmb, pml = p['box']
+            ppt, ppr, ppb, ppl = p.get('pad', [0, 0, 0, 0])
+            if axis == 'corner':
+                cbw, cbh = (pml if 'left' in kw else pmr), (pmt if 'top' in kw else pmb)
+            elif axis == 'v':
+                cbw, cbh = ppl + pcw + ppr, (pmt if prefix == 'top' else pmb)
+            else:
+                cbw, cbh = (pml if prefix == 'left' else pmr), ppt + pch + ppb
             for size_name, a_name, b_name, size, ma, mb_, start in checks:
-                dsize = px_of(declared(kw, size_name), None)
-                da, db = px_of(declared(kw, a_name), 0.0), px_of(declared(kw, b_name), 0.0)
+                dsize = px_of(declared(kw, size_name), None, cbw if size_name == 'width' else cbh)
+                da, db = px_of(declared(kw, a_name), 0.0, cbw), px_of(declared(kw, b_name), 0.0, cbw)
                 if dsize is None or da is None or db is None:
                     continue
                 if abs(size - dsize) > eps and not (size_name == 'height' and dsize < 0):
@@ -879,6 +1051,10 @@ def doc_oracle(doc, pages):
                 else:
                     unknown.add(nm)
             store[nm][where[k] + 1].append(value)
+    rstore = collections.defaultdict(lambda: collections.defaultdict(list))      # running elements
+    for k, sec in enumerate(doc['sections']):
+        for nm, v in sec.get('running', []):
+            rstore[nm][where[k] + 1].append(v)
     margin_counters = any(nm.startswith('counter-') for r in doc['rules'] for _, ds in r['margin'] for nm, _, _ in ds)
     for kw, defs in single.items():
         if len(defs) != 1 or defs[0][0] != '' or defs[0][1][1] is None:
@@ -886,9 +1062,20 @@ def doc_oracle(doc, pages):
         items = defs[0][1][1]
         for i, p in enumerate(pages):
             secs_here = [k for k in sorted(where) if where[k] == i]
-            text, ok = '', True
+            text, ok, done = '', True, []
             for item in items:
-                if item[0] == 'text':
+                if item[0] == 'element':
+                    # a running element is a block of its own between the inline text around it; `start` is
+                    # not judged (known finding element-start-ignores-running-elements)
+                    kwd = item[2] or 'first'
+                    if kwd == 'start':
+                        ok = False
+                        continue
+                    value = spec_string({pg: vals for pg, vals in rstore[item[1]].items()}, i + 1, kwd, False)
+                    if value is not None:
+                        done += text.split() + value.split()
+                        text = ''
+                elif item[0] == 'text':
                     text += item[1]
                 elif item[0] == 'counter':
                     if item[1] == 'pages':
@@ -909,8 +1096,8 @@ def doc_oracle(doc, pages):
             have = [m['text'] for m in p['margin'] if m['kw'] == kw]
             if not have:
                 return f'page {i}: {kw} has content but was not generated'
-            if ' '.join(text.split()) != have[0]:
-                return f'page {i}: {kw} shows {have[0]!r}, expected {" ".join(text.split())!r}'
+            if ' '.join(done + text.split()) != have[0]:
+                return f'page {i}: {kw} shows {have[0]!r}, expected {" ".join(done + text.split())!r}'
     # boxes are generated only when they have content
     for i, p in enumerate(pages):
         for m in p['margin']:
@@ -1051,9 +1238,10 @@ def search(prop, run, failures):
     names = {f['name'] for f in failures if f['kind'] == 'correspondence'}
     order = [('page-box', prop._page_box), ('page-min-max', prop._page_box), ('fixed-dimension', prop._fixed),
              ('variable-dimension', prop._variable), ('init-side', prop._sides), ('remake-side', prop._sides),
-             ('page-states', prop._counters), ('named-strings', prop._strings),
+             ('page-states', prop._counters), ('update-counters', prop._counters),
+             ('standardize-counters', prop._counters), ('named-strings', prop._strings),
              ('parse-page-selectors', prop._selectors), ('page-type-match', prop._selectors),
-             ('page-cascade', prop._cascade)]
+             ('page-cascade', prop._cascade), ('page-groups', prop._groups), ('includes-resume-at', prop._groups)]
     done = set()
     for name, fn in order:
         if fn is None or fn in done or (names and name not in names):
@@ -1090,6 +1278,69 @@ def finding_nth_trailing_sign():
     return False
 
 
+def finding_margin_boxes_overlap():
+    """Two auto-width boxes on a side narrower than their min-content sizes: kept at min-content, overlapping."""
+    from weasyprint.formatting_structure import boxes
+    html = ('<style>html { font-family: weasyprint; font-size: 16px } body { margin: 0 } '
+            '@page { size: 200px; margin: 50px; @top-left { content: "aaaaaaaa" } @top-right { content: "bbbbbbbb" } }'
+            '</style><body>')
+    page = docs.render(html).pages[0]._page_box
+    found = {c.at_keyword: c for c in page.children if isinstance(c, boxes.MarginBox)}
+    a, c = found['@top-left'], found['@top-right']
+    return a.position_x + a.margin_width() > c.position_x + 1e-6
+
+
+def finding_page_groups_lost_on_remake():
+    """The third page of page group `a` shows counter(page) in its content: it is re-made in a second
+    pass that starts with empty page groups."""
+    html = ('<style>@page{size:200px;margin:10px} @page :nth(3 of a){margin:30px} .pc::before{content:counter(page)}'
+            '</style><div>x</div><div style="page:a"><div>s0</div><div style="break-before:page">s1</div>'
+            '<div style="break-before:page"><span class=pc></span>s2</div><div style="break-before:page">s3</div></div>')
+    page = docs.render(html).pages[3]._page_box
+    return tuple(page.page_type.groups) != (('a', 2),) or page.margin_left != 30
+
+
+def finding_page_group_counts_blank():
+    """A named group starting with a forced right break after a right page: the blank page takes index 0."""
+    html = ('<style>@page{size:200px;margin:10px} @page :nth(1 of a){margin:30px}</style>'
+            '<div>x</div><div style="page:a;break-before:right"><div>s0</div><div style="break-before:page">s1</div></div>')
+    pages = docs.render(html).pages
+    first = [p._page_box for p in pages if p._page_box.page_type.name == 'a'][0]
+    return tuple(first.page_type.groups) != (('a', 0),) or first.margin_left != 30
+
+
+def finding_page_group_first_page():
+    """A document starting inside a named element: no group on its first page, a fresh one on every later page."""
+    html = ('<style>@page{size:200px;margin:10px} @page :nth(1 of a){margin:30px}</style>'
+            '<div style="page:a"><div>s0</div><div style="break-before:page">s1</div>'
+            '<div style="break-before:page">s2</div></div>')
+    pages = [p._page_box for p in docs.render(html).pages]
+    return [tuple(p.page_type.groups) for p in pages] != [(('a', 0),), (('a', 1),), (('a', 2),)]
+
+
+def finding_element_named_page_crash():
+    html = ('<style>@page{size:200px;margin:30px; @top-left{content: "x" element(h)}}</style>'
+            '<div style="page:b"><p style="position:running(h)">r</p>s</div>')
+    try:
+        docs.render(html)
+    except AssertionError:
+        return True
+    return False
+
+
+def finding_element_start():
+    """element(name, start) on a page whose first content is the running element: shows the previous page's."""
+    from weasyprint.formatting_structure import boxes
+    html = ('<style>@page{size:200px;margin:30px; @top-left{content: element(h, start)}}</style>'
+            '<div><p style="position:running(h)">aa</p>s0</div>'
+            '<div style="break-before:page"><p style="position:running(h)">bb</p>s1</div>')
+    page = docs.render(html).pages[1]._page_box
+    texts = [b.text for c in page.children if isinstance(c, boxes.MarginBox)
+             for b in c.descendants() if isinstance(b, boxes.TextBox)]
+    return texts != ['bb']
+
+
 def finding_replays():
-    return {'media-box-vertical-mirror': finding_media_box_mirror,
+    return {'element-from-named-page-crashes-margin-box': finding_element_named_page_crash,
+            'element-start-ignores-running-elements': finding_element_start,'page-group-not-started-on-first-page': finding_page_group_first_page,'page-group-index-counts-blank-page': finding_page_group_counts_blank,'page-groups-lost-on-remake': finding_page_groups_lost_on_remake,'margin-boxes-overlap-at-min-content': finding_margin_boxes_overlap,'media-box-vertical-mirror': finding_media_box_mirror,
             'page-nth-trailing-sign-crash': finding_nth_trailing_sign}
